@@ -805,6 +805,9 @@ class Engine:
             a = self.simp(self.operand(rv['a'], st, fr), st)
             b = self.simp(self.operand(rv['b'], st, fr), st)
             if not (is_scalar(a) and is_scalar(b)):
+                if (a is not None and a[0] == 'fn') or (b is not None and b[0] == 'fn'):
+                    raise Undecided('comparison of function pointers (the result is unspecified: the code generator may merge or '
+                                    'duplicate functions)', sp)
                 raise Undecided('binary op %s on non-scalars' % rv['op'], sp)
             op = rv['op']
             tka = tk_of(a)
@@ -1387,8 +1390,9 @@ class Engine:
 
     @staticmethod
     def prefer_model(path):
-        """Library functions whose real MIR works on raw pointers: the semantic model is used instead."""
-        return False
+        """Library functions that are modelled rather than interpreted: the formatting plumbing that only builds the
+        message of a panic (its result feeds a diverging panic entry point and nothing else)."""
+        return path.startswith('core::fmt::Arguments') or path.startswith('core::fmt::rt::')
 
     @staticmethod
     def is_panic_path(path):
@@ -1537,6 +1541,8 @@ class Engine:
                 if not is_scalar(v):
                     raise Undecided(nm + ' on non-scalar', sp)
                 return ret(T(op, (v,), 'u32'))
+        if self.prefer_model(path):
+            return ret(('op', 'fmt-arguments', None))
         if path == 'core::intrinsics::ctpop':
             v = self.simp(vals[0], st)
             if not is_scalar(v):
